@@ -200,6 +200,12 @@ tagspec(struct scope *s)
 		if (kind == TYPEENUM) {
 			t = mktype(kind, PROPSCALAR|PROPARITH|PROPREAL|PROPINT);
 			t->base = et;
+			if (et) {
+				/* with a fixed underlying type the representation is known before the definition */
+				t->size = et->size;
+				t->align = et->align;
+				t->u.basic.issigned = et->u.basic.issigned;
+			}
 		} else {
 			t = mktype(kind, 0);
 			t->size = 0;
@@ -211,8 +217,12 @@ tagspec(struct scope *s)
 		if (tag)
 			scopeputtag(s, tag, t);
 	}
-	if (tok.kind != TLBRACE)
+	if (tok.kind != TLBRACE) {
+		/* an enum type is only usable once it is complete (C11 6.7.2.3p3) */
+		if (kind == TYPEENUM && t->incomplete && !t->base)
+			error(&tok.loc, "enum '%s' is used before its definition", tag ? tag : "");
 		return t;
+	}
 	if (!t->incomplete)
 		error(&tok.loc, "redefinition of tag '%s'", tag);
 	next();
